@@ -151,6 +151,24 @@ func ParseMatrix(out string) (names []string, m [][]float64, err error) {
 	return names, m, nil
 }
 
+// ParseMatrices reads several matrices printed one after the other (multi-alignment input)
+func ParseMatrices(out string) (names [][]string, ms [][][]float64, err error) {
+	lines := strings.Split(strings.TrimRight(out, "\n"), "\n")
+	for k := 0; k < len(lines); {
+		n, e := strconv.Atoi(strings.TrimSpace(lines[k]))
+		if e != nil || n < 0 || k+1+n > len(lines) {
+			return nil, nil, fmt.Errorf("line %d is not the header of a complete matrix: %q", k+1, lines[k])
+		}
+		nm, m, e := ParseMatrix(strings.Join(lines[k:k+1+n], "\n"))
+		if e != nil {
+			return nil, nil, fmt.Errorf("matrix starting at line %d: %v", k+1, e)
+		}
+		names, ms = append(names, nm), append(ms, m)
+		k += 1 + n
+	}
+	return names, ms, nil
+}
+
 func parseFloat(s string) (float64, error) {
 	switch s {
 	case "NaN":
